@@ -716,7 +716,7 @@ func Run(ctx *common.Ctx) int {
 		"distinct_nontrivial":           maxInt(len(pairs), 2),
 		"samples":                       samples,
 		"rule": "sequential: breadth-first search over operation sequences; state = deep dump of every package-level variable of randomness, fft and detect (list generated from the AST at check time) plus hashes of the shared inputs; every operation must repeat its initial-state result bit for bit and leave the inputs unchanged (depth 1 closes the search when every operation is a self-loop, depth 3 otherwise); " +
-			"concurrent: 2 (3) controlled threads, one call each, all ordered pairs of the 17 registry-level operations (thorough: all entry points) on a shared and on distinct buffers, every schedule with <= 2 preemptions at the instrumented points (synchronisation operations and accesses to package-level variables); each result must equal its solitary result; the same for every registry runner paired with itself on 10^6-bit samples (<= 1 preemption); race pass: every ordered pair and a 64-goroutine mix free-running under -race",
+			"concurrent: 2 (3) controlled threads, one call each, all ordered pairs of the 17 registry-level operations (thorough: all entry points) on a shared and on distinct buffers, every schedule with <= 2 preemptions at the instrumented points (synchronisation operations and accesses to package-level variables); each result must equal its solitary result; the same for every registry runner paired with itself on 10^6-bit samples (<= 1 preemption); race pass: every ordered pair and a 64-goroutine mix free-running under -race, and every entry point (bit- and byte-level calls included) three at once and with its table neighbour on one shared buffer",
 		"package_level_variables":     pre,
 		"touch_points_inserted":       info.Counts["touch"],
 		"max_touch_points_per_thread": maxTouches,
@@ -743,16 +743,65 @@ func maxInt(a, b int) int {
 	return b
 }
 
+// raceShared: every entry point (registry runners, rounds, every bit- and byte-level call) runs three times at once
+// on ONE shared byte buffer / bit slice, then paired with its neighbour in the table on that same data. A callee
+// that writes to its input even temporarily races with its twin; results must equal the solitary ones bit for bit
+// (a mismatch is printed as a DATA RACE line so that the parent reports it).
+func raceShared() int {
+	ops := Ops()
+	inputs := Inputs(1)
+	bitsIn := make([][]bool, len(inputs))
+	for i := range inputs {
+		bitsIn[i] = bitsWindow(inputs[i])
+	}
+	in := 0
+	solo := make([][]float64, len(ops))
+	for o := range ops {
+		if len(inputs[in]) < ops[o].Min {
+			continue
+		}
+		solo[o] = ops[o].F(inputs[in], bitsIn[in])
+	}
+	bad := 0
+	run := func(list []int) {
+		var wg sync.WaitGroup
+		got := make([][]float64, len(list))
+		for k, o := range list {
+			k, o := k, o
+			wg.Add(1)
+			go func() { defer wg.Done(); got[k] = ops[o].F(inputs[in], bitsIn[in]) }()
+		}
+		wg.Wait()
+		for k, o := range list {
+			if !same(got[k], solo[o]) && bad < 3 {
+				bad++
+				fmt.Printf("WARNING: DATA RACE (observed through results): %s called concurrently with %v on the same data returned %v, alone it returns %v\n", ops[o].Name, list, short(got[k]), short(solo[o]))
+			}
+		}
+	}
+	for o := range ops {
+		if solo[o] == nil {
+			continue
+		}
+		run([]int{o, o, o})
+		n := (o + 1) % len(ops)
+		if solo[n] != nil {
+			run([]int{o, n, o})
+		}
+	}
+	return 0
+}
+
 // racePass runs the C18-race sub-command of the -race runner.
 func racePass(ctx *common.Ctx, bin string) (bool, int) {
 	okAll := true
 	total := 0
 	var mu sync.Mutex
 	// one fresh process per operation (cold package state), plus the 64-goroutine mix
-	common.ParFor(NRegistryOps+1, func(k int) {
+	common.ParFor(NRegistryOps+2, func(k int) {
 		op := k
-		if k == NRegistryOps {
-			op = -1
+		if k >= NRegistryOps {
+			op = NRegistryOps - 1 - k // -1: the 64-goroutine mix, -2: every entry point on shared data
 		}
 		ok, n := fast.RacePass(ctx, bin, []string{"C18-race", "--tier", ctx.Tier, "--work", ctx.Work, "--gomaxprocs", fmt.Sprint(op)}, fmt.Sprintf("race/op%d", op))
 		mu.Lock()
@@ -769,6 +818,9 @@ func racePass(ctx *common.Ctx, bin string) (bool, int) {
 // 64-goroutine mix.
 func Race(ctx *common.Ctx, cold int) int {
 	runtime.GOMAXPROCS(16)
+	if cold == -2 {
+		return raceShared()
+	}
 	ops := Ops()[:NRegistryOps]
 	inputs := append(Inputs(1), enum.FillerBytes(2500, 77), enum.FillerBytes(4200, 78))
 	bitsIn := make([][]bool, len(inputs))
